@@ -40,7 +40,7 @@ def main():
             only = sys.argv[i + 1].split(",")
     setup()
     env = dict(os.environ, MUT_REPO=WORK + "/repo", VERIF_ROOT=WORK + "/verif")
-    names = sorted(d for d in os.listdir(ROOT + "/seeded") if re.match(r"C\d\d-[A-C]\d?$", d))
+    names = sorted(d for d in os.listdir(ROOT + "/seeded") if re.match(r"C\d\d-[A-C]\d*$", d))
     for n in names:
         prop = n[:3]
         if only and prop not in only:
@@ -69,7 +69,7 @@ def main():
     shutil.rmtree(WORK, ignore_errors=True)
 
 def write_results():
-    names = sorted(d for d in os.listdir(ROOT + "/seeded") if re.match(r"C\d\d-[A-C]\d?$", d))
+    names = sorted(d for d in os.listdir(ROOT + "/seeded") if re.match(r"C\d\d-[A-C]\d*$", d))
     rows = []
     tot = first = now = sib = 0
     for n in names:
@@ -88,7 +88,7 @@ def write_results():
         rows.append("| %s | %s | %s | %s | %s | %s |" % (n, m.get("confirmed"), f, c, ", ".join(x[:70] for x in cls[:2]), ", ".join(others)))
     with open(os.path.join(ROOT, "seeded", "RESULTS.md"), "w") as fh:
         fh.write("# Seeded property-breaking changes (independent sub-agents)\n\n")
-        fh.write("Three rounds (names ending in 2 / 3 are rounds 2 / 3). Each change was produced by a sub-agent that saw only the property text and a scratch worktree (later rounds also a list of the earlier changes to avoid); confirmed here in a separate scratch worktree (patch applies, 72 repository tests pass with it, the agent's demonstration fails with it and passes without it) and then applied for the check runs (and reverted). `first run` is the quick check of the property as it was when the change arrived; `now` is that check as committed (all changes re-run by scripts/reeval_seeded.py after the last strengthening); the last column lists other properties' checks that were tried and report it too.\n\n")
+        fh.write("Eleven rounds (a name ending in a number n belongs to round n; no number: round 1). Each change was produced by a sub-agent that saw only the property text and a scratch worktree (later rounds also a list of the earlier changes to avoid); confirmed here in a separate scratch worktree (patch applies, 72 repository tests pass with it, the agent's demonstration fails with it and passes without it) and then applied for the check runs (and reverted). `first run` is the quick check of the property as it was when the change arrived; `now` is the latest run of that check recorded in the change's meta.json (rounds 1-8 were all re-run by scripts/reeval_seeded.py after the eighth round's strengthening; later rounds were re-run one by one after the strengthening they caused); the last column lists other properties' checks that were tried and report it too.\n\n")
         fh.write("%d changes; reported by their own property's quick check at first run: %d; now: %d; of the rest, reported by a sibling check: %d.\n\n" % (tot, first, now, sib))
         fh.write("| change | confirmed | first run | now | violation classes reported | also reported by |\n|---|---|---|---|---|---|\n")
         fh.write("\n".join(rows) + "\n")
